@@ -681,6 +681,41 @@ class PipeCase(Case):
         return {}
 
 
+class ConfigPipeCase(PipeCase):
+    """The first answer of the protocol is the dumped configuration: whatever a validated configuration can hold
+    (paths, infinities, enums, nested tuples) must get through the real pipe encoder and validate to the same thing."""
+
+    family = "external-process/pipe"
+
+    def __init__(self, cid, extra):
+        from .common import make_config
+        self.id, self.extra, self.drain_every = cid, extra, 1
+        d = {"variables": {"initial_values": [0.0, 1.0], "lower_bounds": [-np.inf, 0.0], "upper_bounds": 2.0},
+             "optimizer": {"method": "external/slsqp"}}
+        for k, v in extra.items():
+            d.setdefault(k, {}).update(v)
+        self.cfg = make_config(d)
+        self.message = self.cfg.model_dump(round_trip=True)
+
+    def describe(self):
+        return f"configuration dump with {self.extra} through the pipe encoder"
+
+    def props(self, env, inp, oc):
+        from ropt.config.enopt import EnOptConfig
+        if not oc.ok:
+            return [("no_internal_exception:" + type(oc.exc).__name__, SB(False))]
+        got = oc.value["got"]
+        props = [("message_arrives_within_the_bounded_schedule", SB(got is not None))]
+        if got is not None:
+            try:
+                again = EnOptConfig.model_validate(got)
+                same = repr(again.model_dump(round_trip=True)) == repr(self.cfg.model_dump(round_trip=True))
+            except Exception:  # noqa: BLE001
+                same = False
+            props.append(("received_configuration_validates_to_the_same_configuration", SB(same)))
+        return props
+
+
 class FlagsCase(Case):
     """The external wrapper must advertise exactly the capabilities of the wrapped in-process optimizer
     (allow_nan, is_parallel): they decide how ropt treats failed evaluations and batches, hence whether the
@@ -750,6 +785,10 @@ def build_cases(tier):
     cases.append(PipeCase(f"c20-{k:03d}", nitems=2))
     k += 1
     cases.append(PipeCase(f"c20-{k:03d}", nitems=20, drain_every=3))
+    for extra in ({}, {"optimizer": {"output_dir": "/tmp/ropt-out", "max_functions": 5}},
+                  {"optimizer": {"stdout": "out.txt", "options": {"ftol": 1e-3}}, "gradient": {"seed": (3, 4)}}):
+        k += 1
+        cases.append(ConfigPipeCase(f"c20-{k:03d}", extra))
     if tier == "thorough":
         add(nevals=4)
         add(nevals=4, error_at=2)
